@@ -477,7 +477,7 @@ func (self *TextParser) ParseResponse() error {
 				return nil
 			}
 		case 5:
-			startBufIndex, endBufIndex := self.bufIndex, self.bufIndex
+			startBufIndex, endBufIndex := self.bufIndex, self.bufIndex-1
 			for ; self.bufIndex < self.bufLen; self.bufIndex++ {
 				if self.rbuf[self.bufIndex] == '\n' {
 					if self.argsType == 2 {
@@ -504,7 +504,7 @@ func (self *TextParser) ParseResponse() error {
 			}
 			return nil
 		case 6:
-			startBufIndex, endBufIndex := self.bufIndex, self.bufIndex
+			startBufIndex, endBufIndex := self.bufIndex, self.bufIndex-1
 			for ; self.bufIndex < self.bufLen; self.bufIndex++ {
 				if self.rbuf[self.bufIndex] == ' ' {
 					self.args[0] += string(self.rbuf[startBufIndex : endBufIndex+1])
